@@ -1,0 +1,59 @@
+//go:build verif
+// +build verif
+
+package socket
+
+// Machine-checked contracts for the socket transport (comment-only file).
+//
+// Frame format (12-byte header + body):
+//   header[0..3]  CRC-32 (IEEE) of header[4..11], big endian
+//   header[4..7]  body length, big endian, bit 31 always set
+//   header[8..11] request index, big endian; bit 31 = the body is an error message
+// The wire is modelled by the ghost streams of the net/io contracts.
+
+//@ func makeHeader
+//@   prop C12 C09
+//@   nopanic
+//@   modifies nothing
+//@   requires [length_fits_31_bits] 0 <= length && length < 2147483648
+//@   let idx = wrapu32(index)
+//@   ensures [index_big_endian] header[8] == byteof(idx, 3) && header[9] == byteof(idx, 2) && header[10] == byteof(idx, 1) && header[11] == byteof(idx, 0)
+//@   ensures [length_big_endian_with_marker] header[4] == byteof(length, 3) + 128 && header[5] == byteof(length, 2) &&
+//@       header[6] == byteof(length, 1) && header[7] == byteof(length, 0)
+//@   ensures [checksum_big_endian] header[0] == byteof(crc8(header[4], header[5], header[6], header[7], header[8], header[9], header[10], header[11]), 3) &&
+//@       header[1] == byteof(crc8(header[4], header[5], header[6], header[7], header[8], header[9], header[10], header[11]), 2) &&
+//@       header[2] == byteof(crc8(header[4], header[5], header[6], header[7], header[8], header[9], header[10], header[11]), 1) &&
+//@       header[3] == byteof(crc8(header[4], header[5], header[6], header[7], header[8], header[9], header[10], header[11]), 0)
+
+//@ func parseHeader
+//@   prop C12 C09
+//@   nopanic
+//@   modifies nothing
+//@   let stored = header[0] * 16777216 + header[1] * 65536 + header[2] * 256 + header[3]
+//@   let crcok = crc8(header[4], header[5], header[6], header[7], header[8], header[9], header[10], header[11]) == header[0] * 16777216 + header[1] * 65536 + header[2] * 256 + header[3]
+//@   ensures [bad_checksum_rejected] !crcok ==> length == 0 && index == -1 && !ok
+//@   ensures [length_decoded] crcok ==> length == (header[4] % 128) * 16777216 + header[5] * 65536 + header[6] * 256 + header[7]
+//@   ensures [index_decoded_without_error_bit] crcok ==> index == (header[8] % 128) * 16777216 + header[9] * 65536 + header[10] * 256 + header[11]
+//@   ensures [error_bit] crcok ==> (ok <==> header[8] < 128)
+//@   ensures [accepted_is_distinguishable] crcok ==> 0 <= length && length < 2147483648 && 0 <= index && index < 2147483648
+
+// Round trip over the two contracts above (pure SMT lemma; the byte equations are the
+// postconditions of makeHeader, the decoding equations those of parseHeader):
+// parse(make(length, index)) = (length, index, true) for 0 <= length, index < 2^31, and with the
+// error bit set (index + 2^31) the same length and index come back with ok = false.
+//@ lemma header_round_trip C12 C09
+//@   (declare-const length Int) (declare-const index Int) (declare-const e Int)
+//@   (declare-const h0 Int) (declare-const h1 Int) (declare-const h2 Int) (declare-const h3 Int)
+//@   (declare-const h4 Int) (declare-const h5 Int) (declare-const h6 Int) (declare-const h7 Int)
+//@   (declare-const h8 Int) (declare-const h9 Int) (declare-const h10 Int) (declare-const h11 Int)
+//@   (assert (and (<= 0 length) (< length 2147483648) (<= 0 index) (< index 2147483648) (or (= e 0) (= e 1))))
+//@   (define-fun idx () Int (+ index (* e 2147483648)))
+//@   (assert (and (= h8 (byteof idx 3)) (= h9 (byteof idx 2)) (= h10 (byteof idx 1)) (= h11 (byteof idx 0))))
+//@   (assert (and (= h4 (+ (byteof length 3) 128)) (= h5 (byteof length 2)) (= h6 (byteof length 1)) (= h7 (byteof length 0))))
+//@   (define-fun crc () Int (crc8 h4 h5 h6 h7 h8 h9 h10 h11))
+//@   (assert (and (<= 0 crc) (<= crc 4294967295)))
+//@   (assert (and (= h0 (byteof crc 3)) (= h1 (byteof crc 2)) (= h2 (byteof crc 1)) (= h3 (byteof crc 0))))
+//@   (define-fun crcok () Bool (= crc (+ (* h0 16777216) (* h1 65536) (* h2 256) h3)))
+//@   (define-fun plen () Int (+ (* (mod h4 128) 16777216) (* h5 65536) (* h6 256) h7))
+//@   (define-fun pidx () Int (+ (* (mod h8 128) 16777216) (* h9 65536) (* h10 256) h11))
+//@   (assert (not (and crcok (= plen length) (= pidx index) (= (< h8 128) (= e 0)))))
